@@ -66,7 +66,9 @@ def footprints(chk, rng, tier):
         specs.append(("compute_risk_and_sampled_risk", risk_mod, risk_mod.Risk.compute_risk_and_sampled_risk,
                       (cv, samp, np.float32(0.0), np.float32(0.5), np.float32(0.125)), (0, 1)))
         specs.append(("loop_approximate_refinement", ref_mod, ref_mod.AbstractRefinement.loop_approximate_refinement,
-                      (cv, -disp, mask, 0.0, float(nd - 1), 1, "min", vfit.Vfit.refinement_method.py_func), (0, 1, 2)))
+                      # right disparities of the 'approximate' method: -k with the diagonal column col - k inside the image
+                      (cv, -np.minimum(disp, np.arange(cols, dtype=np.float32)[None, :]), mask, 0.0, float(nd - 1), 1, "min",
+                       vfit.Vfit.refinement_method.py_func), (0, 1, 2)))
         # interval regularisation kernels
         bl = np.array([[r, 0] for r in range(rows)], dtype=np.int64)
         br = np.array([[r, cols - 1] for r in range(rows)], dtype=np.int64)
@@ -137,12 +139,23 @@ def run(tier):
             hist.append(("fresh_machine", None, a))
         for a in names[:3]:
             hist.append(("same_machine_again", a, a))
+        for a in ("conf", "mfi", "ms"):
+            hist.append(("same_cfg_dict_again", a, a))
         for x, a in [("bil20", "bil23"), ("bil23", "bil20"), ("conf", "plain"), ("cbca_val", "plain"), ("mfi", "conf"), ("plain", "cbca_val"), ("cbca_val", "mfi")]:
             hist.append(("after_other_pipeline_same_machine", x, a))
             hist.append(("after_other_pipeline_other_machine", x, a))
         for shape, x, a in hist:
             try:
-                if shape == "same_machine_again":
+                if shape == "same_cfg_dict_again":
+                    # the caller keeps ONE configuration dictionary and runs it twice (fresh machines, fresh datasets)
+                    from vp import dataplane as dp
+                    cfg_obj = {"pipeline": {nm: dict(c) for nm, c in pipes[a]}}
+                    pandora.run(PandoraMachine(), *dp.make_datasets(prob), cfg_obj)
+                    left, right = dp.make_datasets(prob)
+                    l0, r0 = left.copy(deep=True), right.copy(deep=True)
+                    l0.attrs, r0.attrs = copy.deepcopy(left.attrs), copy.deepcopy(right.attrs)
+                    l, r = pandora.run(PandoraMachine(), left, right, cfg_obj)
+                elif shape == "same_machine_again":
                     w.run_one(prob, pipes[x], machine)
                     l, r, left, right = None, None, None, None
                     from vp import dataplane as dp
